@@ -9,6 +9,7 @@ import VerdeModel.Model.Windows
 import VerdeModel.Gen.Trend
 import VerdeModel.Gen.Utils
 import VerdeModel.Gen.IO
+import VerdeModel.Gen.Base
 open Verde
 
 def fl (x : Float) : String := floatStr x
@@ -185,10 +186,32 @@ def ioProbes : IO Unit := do
         let rS := if rg.isEmpty then "-" else ",".intercalate (rg.map ratS)
         IO.println s!"checkIntegrity {bS} {sS} {rS} | {uS g} | {uS m}"
 
+def shS1 (s : Shape) : String := if s.isEmpty then "s" else "x".intercalate (s.map toString)
+def shLS (l : List Shape) : String := if l.isEmpty then "-" else ";".intercalate (l.map shS1)
+def wLS (l : List (Option Shape)) : String :=
+  if l.isEmpty then "-" else ";".intercalate (l.map fun o => match o with | some s => shS1 s | none => "N")
+
+def baseProbes : IO Unit := do
+  let uS := fun (x : Except Err Unit) => match x with | .ok _ => "ok" | .error .valueError => "err" | .error _ => "err2"
+  let coordsL : List (List Shape) := [[[4], [4]], [[2, 2], [2, 2]], [[4], [3]], [[4]], [], [[2, 3], [2, 3], [2, 3]], [[2, 3], [3, 2]]]
+  let dataL : List (List Shape) := [[[4]], [[2, 2]], [[4], [4]], [[2, 3]], [[3, 2]], [], [[4], [2, 2]], [[6]]]
+  let wL : List (List (Option Shape)) := [[], [none], [none, none], [some [4]], [some [2, 2]], [some [4], some [4]], [some [4], none], [none, some [4]],
+    [some [6]], [some [2, 3]], [some [3]], [some [4], some [3]], [some [4], some [4], some [4]], [some [2, 2], some [4]]]
+  for cs in coordsL do
+    for d in dataL do
+      for w in wL do
+        let g := Gen.checkFitInput cs d w
+        let m : String :=
+          if w.all (·.isSome) then uS (checkFitInput cs d (some (w.filterMap id)))
+          else if w.all (·.isNone) then uS (checkFitInput cs d none)
+          else "errany"
+        IO.println s!"checkFitInput {shLS cs} {shLS d} {wLS w} | {uS g} | {m}"
+
 def main (args : List String) : IO Unit :=
   match args with
   | ["kernels"] => do kernels; trend
   | ["coords"] => do coords; coords2
   | ["utils"] => do utils; utils2
   | ["io"] => ioProbes
+  | ["base"] => baseProbes
   | _ => IO.println "usage: GenEval kernels|coords"
